@@ -32,8 +32,13 @@ def real(modname):
 def finish_refuted(rep, pv, refuted, bounded_search=None):
     """Turn refuted obligations into violations: native replay of the counter-model first, bounded
     search second, otherwise `no-failing-input-found` (DESIGN §3.8)."""
+    seen = set()
     for name, m, model in refuted:
         c = m['contract']
+        key = (_strip_path(name), (m.get('meta') or {}).get('witness', 'counter-model'))
+        if key in seen:          # one finding per (obligation, witness class): later paths add nothing
+            continue
+        seen.add(key)
         vals, mdl = pv.counter_values(m)
         detail = f'obligation refuted by {name}'
         replay = {'obligation': name, 'function': m.get('function') or c.qualname, 'counter_model_inputs': vals,
